@@ -13,3 +13,26 @@ func ghostModifies(desigs []string) []string {
 	}
 	return out
 }
+
+// mentionsGhost: does the expression mention a declared ghost variable (or epoch)?
+func (u *Unit) mentionsGhost(e *Expr) bool {
+	if e == nil {
+		return false
+	}
+	if e.Op == "id" {
+		if e.Name == "epoch" {
+			return true
+		}
+		for _, g := range u.cs.GhostVars {
+			if g.Name == e.Name {
+				return true
+			}
+		}
+	}
+	for _, a := range e.Args {
+		if u.mentionsGhost(a) {
+			return true
+		}
+	}
+	return false
+}
